@@ -1,5 +1,9 @@
 #!/bin/bash
-# thorough tier of every check, evidence/replays to a scratch directory (timing + alarm rehearsal)
-cd /verif
-mkdir -p /tmp/thorough_out
-ls coq/theories/Props/*.v | sed 's#.*/##; s#\.v##' | xargs -P 4 -I{} bash -c 'start=$(date +%s); VERIF_EVIDENCE_DIR=/tmp/thorough_out/ev VERIF_REPLAY_DIR=/tmp/thorough_out/rp ./bin/check {} --tier thorough > /tmp/thorough_out/{}.out 2> /tmp/thorough_out/{}.err; echo "{} exit=$? $(grep -c ^VIOLATION /tmp/thorough_out/{}.out) violation-lines secs=$(( $(date +%s) - start ))"' | sort
+# thorough tier of every check, evidence/replays to a scratch directory (timing + alarm rehearsal).
+# Runs from the copy of /verif this script lives in (so it can be started with `vp run` on a snapshot).
+here="$(cd "$(dirname "$0")/.." && pwd)"
+cd "$here"
+out="${1:-/tmp/thorough_out}"
+par="${2:-4}"
+mkdir -p "$out"
+ls coq/theories/Props/*.v | sed 's#.*/##; s#\.v##' | xargs -P "$par" -I{} bash -c 'start=$(date +%s); VERIF_EVIDENCE_DIR='"$out"'/ev VERIF_REPLAY_DIR='"$out"'/rp ./bin/check {} --tier thorough > '"$out"'/{}.out 2> '"$out"'/{}.err; echo "{} exit=$? $(grep -c ^VIOLATION '"$out"'/{}.out) violation-lines secs=$(( $(date +%s) - start ))"' | sort
